@@ -189,7 +189,6 @@ func (v *Validator) validateConstants() {
 
 // validateGlobalVariables checks all global variables.
 func (v *Validator) validateGlobalVariables() {
-	bindings := make(map[string]bool) // Track binding uniqueness (group:binding)
 	names := make(map[string]bool)
 
 	for i, gv := range v.module.GlobalVariables {
@@ -202,15 +201,6 @@ func (v *Validator) validateGlobalVariables() {
 
 		if !v.isValidTypeHandle(gv.Type) {
 			v.addError(fmt.Sprintf("global variable %d (%s): type %d does not exist", i, gv.Name, gv.Type))
-		}
-
-		if gv.Binding != nil {
-			key := fmt.Sprintf("%d:%d", gv.Binding.Group, gv.Binding.Binding)
-			if bindings[key] {
-				v.addError(fmt.Sprintf("global variable %q: duplicate binding @group(%d) @binding(%d)",
-					gv.Name, gv.Binding.Group, gv.Binding.Binding))
-			}
-			bindings[key] = true
 		}
 
 		if gv.Init != nil {
@@ -722,6 +712,44 @@ func (v *Validator) validateEntryPoints() {
 				v.addError(fmt.Sprintf("entry point %q (@compute): workgroup size must be non-zero", ep.Name))
 			}
 		}
+
+		v.validateEntryPointBindings(ep.Name, fn)
+	}
+}
+
+// validateEntryPointBindings checks that the resources statically used by one
+// entry point (directly or through called functions) have pairwise distinct
+// @group/@binding pairs. Different entry points may reuse a binding.
+func (v *Validator) validateEntryPointBindings(epName string, fn *Function) {
+	used := make(map[GlobalVariableHandle]bool)
+	visited := make(map[FunctionHandle]bool)
+	var visit func(f *Function)
+	visit = func(f *Function) {
+		for i := range f.Expressions {
+			if gv, ok := f.Expressions[i].Kind.(ExprGlobalVariable); ok {
+				used[gv.Variable] = true
+			}
+		}
+		for _, callee := range collectCalleeHandles(f.Body) {
+			if visited[callee] || int(callee) >= len(v.module.Functions) {
+				continue
+			}
+			visited[callee] = true
+			visit(&v.module.Functions[callee])
+		}
+	}
+	visit(fn)
+
+	bindings := make(map[ResourceBinding]bool)
+	for i, gv := range v.module.GlobalVariables {
+		if gv.Binding == nil || !used[GlobalVariableHandle(i)] {
+			continue
+		}
+		if bindings[*gv.Binding] {
+			v.addError(fmt.Sprintf("entry point %q: global variable %q: duplicate binding @group(%d) @binding(%d)",
+				epName, gv.Name, gv.Binding.Group, gv.Binding.Binding))
+		}
+		bindings[*gv.Binding] = true
 	}
 }
 
